@@ -217,6 +217,13 @@ def build(F):
                          http=http('post', '/v1/{name=shelves/*/books/*}:stamp', '*'), sigs=['name,common'] if sig else []),
                     dict(name='GetAuthor', **{'in': 'GetAuthorRequest', 'out': 'Author'},
                          http=http('get', '/v1/{name=authors/*}'), sigs=['name'] if sig else [])]
+        if 'm_lro' in F:
+            # an LRO whose response type lives in the other file's module, with a PRIMITIVE flattened argument named like that
+            # module (the argument shadows the module inside the method, so the module must be aliased there too)
+            msgs.append(dict(name='ArchiveBookRequest', fields=[dict(name='name'), dict(name='common')]))
+            methods.append(dict(name='ArchiveBook', **{'in': 'ArchiveBookRequest', 'out': 'google.longrunning.Operation'},
+                                http=http('post', '/v1/{name=shelves/*/books/*}:archive', '*'),
+                                lro=dict(resp='Author', meta='Stamp'), sigs=['name,common']))
         book_msg.setdefault('messages', []).append(
             dict(name='Index', fields=[dict(name='by_name', type='map:string,Author'), dict(name='stamp', type='Stamp'),
                                        dict(name='authors', type='Author', repeated=True)]))
